@@ -204,7 +204,7 @@ def deqStep (s : St) (op : String) (a : List Int) : St × String :=
   | "swap", [i, j] =>
     let di := getD s (n i); let dj := getD s (n j)
     if i = j then (s, showDeq di) else
-    let ni := Deq.swapInto di dj; let nj := Deq.swapInto dj di
+    let (ni, nj) := Deq.swapPair di dj
     ({ s with deqs := (s.deqs.setIfInBounds (n i) ni).setIfInBounds (n j) nj }, showDeq ni)
   | _, _ => (s, "bad")
 
@@ -212,10 +212,9 @@ def deqStep (s : St) (op : String) (a : List Int) : St × String :=
 
 def getL (s : St) (i : Nat) : XL Int := s.lsts.getD i {}
 
-/-- dump of list `i` (iterating touches the head), with the number of blocks all lists hold -/
+/-- dump of list `i` (iterating allocates nothing), with the number of blocks all lists hold -/
 def showLst (s : St) (i : Nat) (pre : String := "") : St × String :=
-  let l := (getL s i).touch
-  let s := { s with lsts := s.lsts.setIfInBounds i l }
+  let l := getL s i
   let total := s.lsts.foldl (fun acc l => acc + l.blocks) 0
   let f := match l.front with | some x => s!"{x}" | none => "-"
   let b := match l.back with | some x => s!"{x}" | none => "-"
@@ -271,7 +270,7 @@ def lstStep (s : St) (op : String) (a : List Int) : St × String :=
     | none => (s, "mem")
     | some id => setL s (n i) ((getL s (n i)).erase (.node id))
   | "splice", [i, pidx, j, sidx] =>
-    let l := (getL s (n i)).touch; let src := (getL s (n j)).touch
+    let l := getL s (n i); let src := getL s (n j)
     match posAt l (n pidx), src.live[n sidx]? with
     | some p, some nd =>
       if i = j then setL s (n i) (l.spliceSelf p nd.1)
@@ -281,7 +280,7 @@ def lstStep (s : St) (op : String) (a : List Int) : St × String :=
           showLst { s with lsts := (s.lsts.setIfInBounds (n i) l').setIfInBounds (n j) src' } (n i)
     | _, _ => (s, "mem")
   | "splicer", [i, pidx, j, x, y] =>
-    let l := (getL s (n i)).touch; let src := (getL s (n j)).touch
+    let l := getL s (n i); let src := getL s (n j)
     if i = j then (s, "bad") else
     match posAt l (n pidx) with
     | none => (s, "mem")
@@ -345,6 +344,14 @@ def strStep (s : St) : List String → St × String
     | _, _ => (s, "bad")
   | ["eraseat", i, p] => match nats [i, p] with
     | some [i, p] => setStr s i ((getStr s i).eraseAt p)
+    | _ => (s, "bad")
+  | ["eraser", i, a, b] => match nats [i, a, b] with
+    | some [i, a, b] => setStr s i ((getStr s i).eraseRange a b)
+    | _ => (s, "bad")
+  | ["assignit", i, j, a, b] => match nats [i, j, a, b] with
+    | some [i, j, a, b] =>
+      if i = j ∨ a > b ∨ b > (getStr s j).size then (s, "bad")
+      else setStr s i ((getStr s i).assignIt (((getStr s j).chars.drop a).take (b - a)))
     | _ => (s, "bad")
   | ["clear", i] => match i.toNat? with
     | some i => setStr s i (getStr s i).clear
